@@ -348,3 +348,48 @@ func init() {
 		pr("AClient", "sndReq", "retries-when-primary-failed", "goto sndReq", "replica__new # NULL /\\ fd[replica__new]", "a request is re-addressed only when the chosen primary is detected as failed"),
 	)
 }
+
+func init() {
+	// C16: rows added from the survivors of the specification sweep
+	const S = "SYS-DECISION"
+	op := func(pair, name, body, why string) specRow { return specRow{rule: S, pair: pair, op: name, body: body, why: why} }
+	r := func(pair, unit, label, key, effect, cond, why string) specRow {
+		return specRow{rule: S, pair: pair, unit: unit, label: label, key: key, effect: effect, cond: cond, why: why}
+	}
+	x := func(pair, unit, label, key, effect, expr, cond, why string) specRow {
+		return specRow{rule: S, pair: pair, unit: unit, label: label, key: key, effect: effect, expr: expr, cond: cond, why: why}
+	}
+	specTable(
+		op("dqueue", "NUM_NODES", "NUM_CONSUMERS + 1", "the nodes are the consumers and the one producer"),
+		op("loadbalancer", "NUM_NODES", "NUM_CLIENTS + NUM_SERVERS + 1", "the nodes are the clients, the servers and the balancer"),
+		op("proxy", "NUM_NODES", "NUM_SERVERS + NUM_CLIENTS + 1", "the nodes are the servers, the clients and the proxy"),
+		op("proxy", "ProxyID", "NUM_NODES", "the proxy has the last id"),
+		op("proxy", "SERVER_SET", "1..NUM_SERVERS", "the servers are 1..NUM_SERVERS (the order the proxy tries them in)"),
+		op("proxy", "CLIENT_SET", "(NUM_SERVERS+1)..(NUM_SERVERS+NUM_CLIENTS)", "client ids follow the servers'"),
+		op("gcounter", "MAX", "IF a > b THEN a ELSE b", "MAX is the maximum"),
+		op("gcounter", "NODE_SET", "1..NUM_NODES", "the nodes are 1..NUM_NODES"),
+		op("shcounter", "NODE_SET", "1..NUM_NODES", "the nodes are 1..NUM_NODES"),
+		op("shopcart", "Max", "IF a > b THEN a ELSE b", "Max is the maximum"),
+		op("shopcart", "MergeVectorClock", "[i \\in DOMAIN v1 |-> Max(v1[i], v2[i])]", "vector clocks merge component-wise by maximum"),
+		op("shopcart", "CompareVectorClock", "IF \\A i \\in DOMAIN v1: v1[i] <= v2[i] THEN TRUE ELSE FALSE", "v1 is dominated by v2 when every component is"),
+		op("shopcart", "MergeKeys", "[k \\in DOMAIN a |-> MergeVectorClock(a[k], b[k])]", "per-element clocks merge element by element"),
+		op("shopcart", "Query", "{elem \\in DOMAIN r.addMap: ~CompareVectorClock(r.addMap[elem], r.remMap[elem])}", "an element is in the cart unless its add clock is dominated by its remove clock (add wins on concurrency)"),
+		op("shopcart", "GetVal", "round * NumNodes + (n-1)", "bench values are distinct per node and round"),
+		op("shopcart", "isOKSet", "\\A i \\in NodeSet: GetVal(i, round) \\in xset", "a round is complete when every node's value arrived"),
+		x("proxy", "AProxy", "proxyLoop", "asserts-client-request", "assert", "msg__new.to = ProxyID /\\ msg__new.typ = REQ_MSG_TYP", "", "the proxy handles client requests addressed to it"),
+		x("proxy", "AServer", "serverRcvMsg", "asserts-proxy-request", "assert", "msg__new.to = self /\\ msg__new.from = ProxyID /\\ msg__new.typ = PROXY_REQ_MSG_TYP", "", "a backend handles proxy requests addressed to it"),
+		r("proxy", "AClient", "clientRcvResp", "request-ids-cycle", "reqId := (reqId + 1) % MSG_ID_BOUND", "", "request ids advance by one, modulo the bound"),
+		r("proxy", "AClient", "clientLoop", "asks-the-proxy-in-own-name", "req := [from |-> self, to |-> ProxyID, body |-> input, id |-> reqId, typ |-> REQ_MSG_TYP]", "CLIENT_RUN", "a client's request names the client and carries its current request id"),
+		r("gcounter", "ANodeBench", "waitInc", "round-advances-by-one", "r := r + 1", "", "one round at a time"),
+		x("gcounter", "ANodeBench", "waitInc", "waits-for-every-increment-of-the-round", "await", "cntr[self] >= (r + 1) * NUM_NODES", "", "a bench round ends when every node's increment of that round is visible"),
+		r("gcounter", "ANodeBench", "inc", "increments-own-component", "cntr[self] := 1", "", "a node increments through its own replica"),
+		r("nestedcrdtimpl", "ATestBench", "waitInc", "round-advances-by-one", "r := r + 1", "", "one round at a time"),
+		x("nestedcrdtimpl", "ATestBench", "waitInc", "waits-for-every-increment-of-the-round", "await", "crdt >= (r + 1) * numNodes", "", "a bench round ends when every node's increment of that round is visible"),
+		r("nestedcrdtimpl", "ATestRig", "loop", "counts-iterations", "i := i + 1", "i < iterCount", "the rig performs exactly iterCount increments"),
+		r("nestedcrdtimpl", "ACRDTResource", "receiveReq", "section-starts-at-first-touch", "criticalSectionInProgress := TRUE", "(req__new.tpe = READ_REQ \\/ (req__new.tpe # READ_REQ /\\ req__new.tpe = WRITE_REQ)) /\\ ~criticalSectionInProgress", "a section begins at the first read or write"),
+		r("nestedcrdtimpl", "ACRDTResource", "receiveReq", "write-updates-working-copy", "readState := UPDATE_FN(self, readState__new, req__new.value)", "req__new.tpe # READ_REQ /\\ req__new.tpe = WRITE_REQ", "a write updates the section's working copy, not the replica state"),
+		r("shopcart", "ANode", "nodeLoop", "add-is-an-add", "crdt[self] := [cmd |-> AddCmd, elem |-> req.elem]", "req.cmd = AddCmd", "an add request adds"),
+		r("shopcart", "ANode", "nodeLoop", "remove-is-a-remove", "crdt[self] := [cmd |-> RemoveCmd, elem |-> req.elem]", "req.cmd # AddCmd /\\ req.cmd = RemoveCmd", "a remove request removes"),
+		r("shopcart", "ANode", "rcvResp", "answers-with-own-replica", "out := crdt[self]", "", "a node answers with what its own replica reads"),
+	)
+}
